@@ -86,9 +86,18 @@ def build(case, model):
 def summed(case, model0, X, T):
     model = copy.deepcopy(model0)
     gsm, opt, crit, params = build(case, model)
-    out = gsm(X)
-    loss = crit(out, T)
-    loss.backward()
+    n = X.shape[0]
+    k = max(1, min(case.get('split', 1), n))
+    bounds = [round(i * n / k) for i in range(k + 1)]
+    chunks = [(bounds[i], bounds[i + 1]) for i in range(k) if bounds[i + 1] > bounds[i]] or [(0, n)]
+    for ci, (a, b) in enumerate(chunks):        # physical batches of the logical batch; all but the last are skipped steps
+        last = ci == len(chunks) - 1
+        if len(chunks) > 1:
+            opt.signal_skip_step(do_skip=not last)
+            opt.zero_grad()
+        crit(gsm(X[a:b]), T[a:b]).backward()
+        if not last:
+            opt.step()
     if case['clipping'] == 'ghost':
         # p.grad = sum_i c_i g_i * (1/n for mean): the optimizer's accumulate() takes it as is
         opt.accumulate()
@@ -166,8 +175,12 @@ def step_case(case):
             if len(chunks) > 1:
                 opt.signal_skip_step(do_skip=(ci < len(chunks) - 1))
             opt.zero_grad()
+            if case.get('zg2'):
+                opt.zero_grad()             # clearing twice must be as harmless as clearing once
             crit(gsm(X[a:b]), T[a:b]).backward()
             opt.step()
+            if case.get('zg2') and ci < len(chunks) - 1:
+                opt.zero_grad()
     finally:
         torch.normal = orig
     C = case['C']
